@@ -19,7 +19,7 @@ EXHAUSTIVE = True
 RULE = (
     "space_dim 1..3 x every shape with extents 1..N x physical-dimension patterns (dyadic; rotations of (1e-4,0.7,1,2.5,1e4); thorough: "
     "full product) x origin {default, near, far=1e6 voxel sizes} x payload {scalar, vector, series, vector series} x constructor form "
-    "{dimensions=, height/width/depth}; per image every voxel in [-2, n+1]^d x intra-voxel offsets {1/8,1/2,7/8}^d (quick: centre and "
+    "{dimensions=, height/width/depth}; per image every voxel in [-2, n+1]^d x intra-voxel offsets {1/8,1/2,7/8}^d + points 2^-20 of a voxel inside each face (quick: centre and "
     "the two extreme corners), batch and single-point call forms, typed point objects. Non-trivial = every image (each has >= 1 voxel "
     "and a halo); distinct = distinct (shape, dimensions, origin, payload, ctor)."
 )
@@ -195,6 +195,16 @@ def run_case(case, r):
     offsets = [np.full(dim, 0.5), np.full(dim, 0.125), np.full(dim, 0.875)]
     if case.get("all_offsets") or len(V) <= 64:
         offsets = [np.array(o) for o in itertools.product(offs1, repeat=dim)]
+    # points strictly inside a voxel but very close to one of its faces (2^-20 of a voxel: far
+    # above the rounding level of the conversion for every geometry of the lattice, far below
+    # any tolerance meant for round-off)
+    eps_in = 2.0**-20
+    offsets += [np.full(dim, eps_in), np.full(dim, 1.0 - eps_in)]
+    for m in range(dim):
+        for val in (eps_in, 1.0 - eps_in):
+            o_ = np.full(dim, 0.5)
+            o_[m] = val
+            offsets.append(o_)
     # batch forms
     Cl = cs.coordinate((V + 0.5).tolist())
     r.check(close(Cl, ref_coord(V + 0.5)), f"C01/coordinate-batch/{tag}", "a nested list of fractional voxel positions converts like the array", type=type(Cl).__name__)
